@@ -804,6 +804,28 @@ pub fn run(ctx: &mut Ctx, eng: &mut dyn Engine) {
         }
     }
 
+    // ---- 6b. zero-length object whose FDT entry announces a Content-MD5 that is not the digest of the empty string (finding D33)
+    {
+        let oti = scheme_oti(0, 8, 2, 0, true);
+        let spec = ObjSpec { content: vec![], cenc: Cenc::Null, inband_cenc: false, md5: true, oti: None, transfers: 1 };
+        if let Some(sess) = make_session(&oti, &[spec], 1, 1) {
+            let o = sess.objs[0].clone();
+            let xml = fdt_xml(&[format!(
+                "<File TOI=\"{}\" Content-Location=\"file:///o0\" Content-Length=\"0\" Transfer-Length=\"0\" Content-MD5=\"kAFQmDzST7DWlj99KOF/cg==\" FEC-OTI-FEC-Encoding-ID=\"0\" FEC-OTI-Maximum-Source-Block-Length=\"2\" FEC-OTI-Encoding-Symbol-Length=\"8\"/>",
+                o.toi
+            )]);
+            let mut h: Vec<Option<Vec<u8>>> = fdt_packets(7, &xml).into_iter().map(Some).collect();
+            for raw in &sess.pkts {
+                if alc::parse_alc_pkt(raw).map(|p| p.lct.toi == o.toi).unwrap_or(false) {
+                    h.push(Some(raw.clone()));
+                }
+            }
+            h.push(None);
+            let cc = CaseCfg { expect_mode: None, ..Default::default() };
+            r.case("empty-bad-md5", &cc, &sess, &[], &h, false);
+        }
+    }
+
     // ---- 7. packet cache and block allocation limits (C17): objects that cannot be decoded yet, small limits
     let nc17 = if thorough { 300 } else { 60 };
     for i in 0..nc17 {
@@ -861,7 +883,8 @@ pub fn run(ctx: &mut Ctx, eng: &mut dyn Engine) {
                 }
                 let p = alc::parse_alc_pkt(raw).unwrap();
                 let pid = alc::parse_payload_id(&p, &o.oti).unwrap();
-                let oti2 = hk::make_oti(2, 0, 2, 8, 1, Some((0, m, 1, 0)), inband).unwrap();
+                // FDT-borne OTI: the packets themselves are built with m = 8 (same 4-byte payload ID), only the FDT announces m
+                let oti2 = hk::make_oti(2, 0, 2, 8, 1, Some((0, if inband { m } else { 8 }, 1, 0)), inband).unwrap();
                 let f = hk::PktFields {
                     payload: raw[p.data_payload_offset..].to_vec(),
                     transfer_length: 20,
@@ -897,6 +920,39 @@ pub fn run(ctx: &mut Ctx, eng: &mut dyn Engine) {
             let mut h = all_pushed(&sess.pkts);
             h.push(None);
             r.case("cenc-tiny", &dflt, &sess, &[], &h, false);
+        }
+    }
+
+    // ---- 10. content encoding + a first block made of EMPTY payloads (zero-sized decompression ring buffer)
+    for &cenc in &[Cenc::Gzip, Cenc::Zlib] {
+        for scheme in [0u8, 5] {
+            let oti = scheme_oti(scheme, 8, 2, 1, true);
+            let spec = ObjSpec { content: content(&mut rng, 60), cenc, inband_cenc: true, md5: false, oti: None, transfers: 1 };
+            let sess = match make_session(&oti, &[spec], 1, 1) {
+                Some(s) => s,
+                None => continue,
+            };
+            let o = sess.objs[0].clone();
+            let mut h: Vec<Option<Vec<u8>>> = Vec::new();
+            for raw in &sess.pkts {
+                let is_obj = alc::parse_alc_pkt(raw).map(|p| p.lct.toi == o.toi).unwrap_or(false);
+                if !is_obj {
+                    h.push(Some(raw.clone()));
+                    continue;
+                }
+                let p = alc::parse_alc_pkt(raw).unwrap();
+                let pid = alc::parse_payload_id(&p, &o.oti).unwrap();
+                if pid.sbn == 0 && pid.esi < 2 {
+                    let mut r2 = raw.clone();
+                    r2.truncate(p.data_payload_offset);
+                    h.push(Some(r2));
+                } else if pid.sbn != 0 {
+                    h.push(Some(raw.clone()));
+                }
+            }
+            h.push(None);
+            let cc = CaseCfg { expect_mode: None, ..Default::default() };
+            r.case("cenc-empty-block", &cc, &sess, &[], &h, false);
         }
     }
 }
